@@ -58,7 +58,12 @@ fn enclosing_function(file: &str) -> (String, bool) {
     // Find the first backtrace frame that belongs to the `pdf` crate.
     let bt = std::backtrace::Backtrace::force_capture().to_string();
     let in_pdf = file.starts_with("pdf/src/") || file.starts_with("pdf_derive");
-    let mut lines = bt.lines().peekable();
+    // skip the hook's own frames: everything up to rust_begin_unwind
+    let text: &str = match bt.find("rust_begin_unwind") {
+        Some(i) => &bt[i..],
+        None => &bt,
+    };
+    let mut lines = text.lines().peekable();
     while let Some(l) = lines.next() {
         let l = l.trim();
         // frame lines look like "12: pdf::enc::run_length_decode"
